@@ -1421,6 +1421,8 @@ package http2
 //@ ensures removed: len(old(*strms)) > 0 && old(*strms)[0].id == id ==> len(*strms) == len(old(*strms)) - 1
 //@ ensures subset: forall(i, 0, len(*strms), exists(j, 0, len(old(*strms)), (*strms)[i] == old(*strms)[j]))
 //@ ensures nonnil: forall(i, 0, len(*strms), (*strms)[i] != nil)
+//@ # every stream with another identifier stays in the table
+//@ ensures kept: forall(j, 0, len(old(*strms)), old(*strms)[j].id != id ==> exists(i, 0, len(*strms), (*strms)[i] == old(*strms)[j]))
 //@ # the table is compacted in place
 //@ ensures inplace: samearray(*strms, old(*strms))
 //@ # with one entry per identifier, the identifier is gone from the table afterwards
